@@ -35,7 +35,8 @@ LibLen(r, pos) == IF \E i \in 1..Len(r.orc) : r.orc[i][1] = pos
 RxLen(r, pos) == IF \E i \in 1..Len(r.rx) : r.rx[i][1] = pos
                  THEN r.rx[CHOOSE i \in 1..Len(r.rx) : r.rx[i][1] = pos][2] ELSE -1
 
-\* a bare description (a text lexeme that is neither parenthesised nor a regex body) ends where a line begins with a
+\* a bare description (the text lexeme right after a Description keyword, neither parenthesised nor a regex body - a regex body
+\* that the regex library does not recognise is a text lexeme too and may span lines) ends where a line begins with a
 \* directive: inside it no line begins - after blanks - with a keyword (or a response code) that is followed by a blank,
 \* a line end, a "/" or the end of the lexeme.  (The directive would have been dropped into the text.)
 KwAt(inp, f, e) ==
@@ -47,7 +48,9 @@ KwAt(inp, f, e) ==
      /\ (f + 3 > e \/ ByteAt(inp, f + 3) \in {32, 9, 10, 13})
 BareTextsEndAtDirectives(r) ==
   \A i \in 1..Len(r.real) :
-     (r.real[i][1] = 5 /\ r.real[i][2] <= r.real[i][3] /\ RxLen(r, r.real[i][2]) < 0) =>
+     (r.real[i][1] = 5 /\ r.real[i][2] <= r.real[i][3] /\ RxLen(r, r.real[i][2]) < 0
+        /\ i > 1 /\ r.real[i - 1][1] = 0          \* the text of a Description: the lexeme before it is that keyword
+        /\ Text(r.inp, r.real[i - 1][2], r.real[i - 1][3]) = << 68, 101, 115, 99, 114, 105, 112, 116, 105, 111, 110 >>) =>
         LET b == r.real[i][2]  e == r.real[i][3]
             nb == {k \in b..e : ~Ws(ByteAt(r.inp, k)) /\ ~Nl(ByteAt(r.inp, k))}
         IN (nb # {} /\ ByteAt(r.inp, CHOOSE k \in nb : \A m \in nb : k <= m) # 40) =>
